@@ -1,5 +1,7 @@
 // check is the single driver of every registered check:
-//   check <ID> [--tier quick|thorough] [--replay file]
+//
+//	check <ID> [--tier quick|thorough] [--replay file]
+//
 // VERIF_SEED / VERIF_TIER are honoured. Exit 0 = held on everything explored,
 // 1 = VIOLATION (line printed), 3 = INCONCLUSIVE.
 package main
